@@ -9,6 +9,7 @@ import pandas as pd
 
 import gen
 import streams_common as sc
+from props import e2e
 import sut
 from engine import Outcome, jsonable
 from ioos_qc.results import CallResult, ContextResult, collect_results
@@ -269,5 +270,5 @@ def run(out: Outcome, drv):
             out.violation(f"{WHAT}: outcome depends on the order in which the contexts were yielded",
                           {"case": jsonable(case), "observed": jsonable(obs)})
         first_by_case.setdefault(key, canon)
-
-
+    # complete real runs with several contexts against the one model value IoosQc.systemRun (props/e2e.py)
+    e2e.run(out, drv, n=25 if out.tier == "quick" else 400, maxn=9 if out.tier == "quick" else 20, min_ctx=2, tag="e2e")
